@@ -19,6 +19,9 @@ def run(ctx):
     # glue (E): every reachable state of the abstract global Time Warp machine satisfies Hist (Props/C01Glue.lean)
     runlib.lean_part(ctx, "RootSim.Props.C01Glue", ['RootSim.C01Glue.reachable_invariant','RootSim.C01Glue.reachable_hist','RootSim.C01Glue.tw_prefix_of_sequential','RootSim.C01Glue.tw_equals_sequential','RootSim.C01Glue.tw_quiescent_equals_sequential','RootSim.C01Glue.tw_quiescent_final','RootSim.C01Glue.tw_quiescent_is_sequential','RootSim.C01Glue.step_function_exact'])
     runlib.lean_part(ctx, "RootSim.Props.C01GlueV2", ['RootSim.C01GlueV2.tw_V2_counterexample','RootSim.C01GlueV2.tw_equals_sequential_V2','RootSim.C01GlueV2.tw_quiescent_final_V2','RootSim.C01GlueV2.reachable_hist_V2','RootSim.C01GlueV2.twg_refines_contentLevel'])
+    # the same theorems for the machine with the straggler rule of the CODE (the ANTI bit of a doomed entry stops the backward scan:
+    # Model/TimeWarpD.lean); Hist of the whole histories is refuted there, Hist/Progress hold for the untainted prefixes
+    runlib.lean_part(ctx, "RootSim.Props.C01GlueD", ['RootSim.C01GlueD.twg_step_is_twd_step','RootSim.C01GlueD.reachable_invariant_D','RootSim.C01GlueD.below_bound_untainted','RootSim.C01GlueD.reachable_hist_D','RootSim.C01GlueD.reachable_progress_D','RootSim.C01GlueD.reachable_progress_D_literal','RootSim.C01GlueD.tw_equals_sequential_D','RootSim.C01GlueD.tw_quiescent_final_D','RootSim.C01GlueD.tw_schedule_independent_D','RootSim.C01GlueD.tw_committed_monotone_D','RootSim.C01GlueD.reachable_hist_D_literal_refuted','RootSim.C01GlueD.step_function_exact_D'])
     # LP-local simulation theorem: every branch of the concrete LP step function (LPFull.step) is ONE action of the abstract machine
     # (or a stutter), with exact bag bookkeeping (Props/C01Refine.lean); the run-time twshadow check below is its instance on real traces
     runlib.lean_part(ctx, "RootSim.Props.C01Refine", ['RootSim.C01Refine.step_preserves_rinv','RootSim.C01Refine.plain_step_refines_exec','RootSim.C01Refine.anti_step_refines_antiRollback','RootSim.C01Refine.discard_steps_refine_annihilate','RootSim.C01Refine.lp_step_refines_tw','RootSim.C01Refine.lp_step_keeps_reachable','RootSim.C01Refine.checkpoint_refines_stutter','RootSim.C01Refine.fossil_refines_stutter','RootSim.C01Refine.cmpOk_is_needed','RootSim.Refine.cmpOk_of_content'])
